@@ -1747,6 +1747,11 @@ func (c *Client) roundTrip(r *Request) (resp *Response, err error) {
 			return &callbackReader{
 				ReadCloser: rc,
 				callback: func(read int64) {
+					if resp.Response == nil {
+						// the body of a redirect response that the http client drains before it
+						// follows the redirect: not the download the caller is waiting for
+						return
+					}
 					r.downloadCallback(DownloadInfo{
 						Response:       resp,
 						DownloadedSize: read,
